@@ -94,6 +94,39 @@ fn spec_c04() -> FullWorldSpec {
     FullWorldSpec { profile: p, tune_cfg: |c, r| { tune_short_periods(c, r); tune_slashy(c, r) }, monitors: || vec![Box::new(c04::C04::default()) as Box<dyn Monitor>], steer: None, lenient_bank: false, build: None }
 }
 
+/// State-targeted prefix for C05: reach a bSei rate that equals the threshold exactly (single validator, even
+/// bSei-only stake slashed by one half, threshold 0.5), then run every fee path there.
+fn steer_c05(r: &mut Rng, _s: &crate::snap::Snap, cfg: &Cfg, g: &mut crate::gen::GenState, _w: &crate::chain::World) -> Option<crate::ops::Op> {
+    use crate::ops::{Op, Tok};
+    if let Some(op) = g.script.pop_front() {
+        return Some(op);
+    }
+    if g.prefix_done {
+        return None;
+    }
+    g.prefix_done = true;
+    if cfg.n_validators != 1 || cfg.er_threshold != dec("0.5") || cfg.n_users < 3 {
+        return None;
+    }
+    let a = 2 * r.range128(1, 1_000_000_000_000);
+    let b = 2 * r.range128(1, 1_000_000);
+    let u = |i: usize| USERS[i].to_string();
+    for op in [
+        Op::Bond { user: u(0), amount: a },
+        Op::Bond { user: u(1), amount: b },
+        Op::Slash { validator: VALIDATORS[0].into(), num: 1, den: 2, unbonding: false },
+        Op::CheckSlashing { user: u(2) },
+        Op::BondStSei { user: u(2), amount: r.range128(10, 1_000_000) },
+        Op::Unbond { user: u(0), tok: Tok::B, amount: r.range128(1, a / 2), owner: None },
+        Op::Bond { user: u(1), amount: r.range128(2, 1_000_000) },
+        Op::Convert { user: u(2), tok: Tok::St, amount: r.range128(2, 9), owner: None },
+        Op::Convert { user: u(0), tok: Tok::B, amount: r.range128(2, 100), owner: None },
+    ] {
+        g.script.push_back(op);
+    }
+    g.script.pop_front()
+}
+
 fn spec_c05() -> FullWorldSpec {
     let mut p = Profile::economy("c05");
     p.steps = (40, 120);
@@ -108,9 +141,16 @@ fn spec_c05() -> FullWorldSpec {
             tune_short_periods(c, r);
             c.er_threshold = dec(r.pick(&["1", "1", "1", "0.9", "0"]));
             c.peg_recovery_fee = dec(r.pick(&["0", "0.000000000000000001", "0.001", "0.05", "0.5", "1", "0.3"]));
+            if r.chance(1, 8) {
+                // histories that start by putting the bSei rate exactly on the threshold (see steer_c05)
+                c.er_threshold = dec("0.5");
+                c.n_validators = 1;
+                c.n_users = c.n_users.max(3);
+                c.peg_recovery_fee = dec(r.pick(&["0.001", "0.05", "0.5", "1"]));
+            }
         },
         monitors: || vec![Box::new(c05::C05::default()) as Box<dyn Monitor>],
-        steer: None,
+        steer: Some(steer_c05),
         lenient_bank: false,
         build: None,
     }
@@ -275,7 +315,7 @@ pub fn defs() -> Vec<PropDef> {
         },
         PropDef {
             id: "C05", salt: 5, budget: (800, 15_000, 100), spec: spec_c05,
-            required: &[("c05.bond.fee_charged", 1), ("c05.unbond.fee_charged", 1), ("c05.convert_stsei_bsei.fee_charged", 1), ("c05.convert_bsei_stsei.fee_charged", 1), ("c05.bond.restoring_cap_binding", 1), ("c05.unbond.restoring_cap_binding", 1), ("c05.convert_stsei_bsei.restoring_cap_binding", 1), ("c05.bond.at_or_above_threshold", 1), ("c05.bond.proportional_cap_binding", 1), ("c05.unbond.proportional_cap_binding", 1)],
+            required: &[("c05.bond.fee_charged", 1), ("c05.unbond.fee_charged", 1), ("c05.convert_stsei_bsei.fee_charged", 1), ("c05.convert_bsei_stsei.fee_charged", 1), ("c05.bond.restoring_cap_binding", 1), ("c05.unbond.restoring_cap_binding", 1), ("c05.convert_stsei_bsei.restoring_cap_binding", 1), ("c05.bond.at_or_above_threshold", 1), ("c05.ops_exactly_at_threshold_below_one", 1), ("c05.bond.proportional_cap_binding", 1), ("c05.unbond.proportional_cap_binding", 1)],
             rule: "full-world histories steered into slashed states with fee/threshold swarms; a case is a successful operation on one of the four fee paths; distinct = (path, below threshold?, fee charged?, proportional cap binding?, decade of base, rate class)",
         },
         PropDef {
@@ -330,7 +370,7 @@ pub fn defs() -> Vec<PropDef> {
         },
         PropDef {
             id: "C19", salt: 19, budget: (400, 8_000, 100), spec: spec_c19,
-            required: &[("c19.updates_judged", 1), ("c19.updates_rebonding", 1), ("c19.updates_delivering_to_holders", 1), ("c19.updates_with_rewards_on_2plus_validators", 1), ("c19.updates_with_nothing_pending", 1)],
+            required: &[("c19.updates_judged", 1), ("c19.updates_rebonding", 1), ("c19.updates_delivering_to_holders", 1), ("c19.updates_with_rewards_on_2plus_validators", 1), ("c19.updates_with_nothing_pending", 1), ("c19.updates_split_checked_both_pools", 1)],
             rule: "full-world histories with multi-denomination reward accrual; a case is an UpdateGlobalIndex by the designated updater; distinct = (empty bSei pool?, empty stSei pool?, decades of rewards, extra denom?, re-bond?, holders?, in-flight batch?)",
         },
     ]
